@@ -1,6 +1,80 @@
-//! C04 harness commands (stub).
-use std::io::Write;
+//! C04: date-range balance queries and the register on the real `Ledger`.
+//! Case: `<id> <enc ledger text> <ranges>` with ranges `S..E;S..E;…`, S/E = `YYYY-MM-DD` or `-`.
+//! Output: `<id> tree=(…) result=<as hx process> ranges=((S E (acct amount)…)…) reg=((acct amount total)…)`
+use std::io::{BufRead, Write};
 
-pub fn run(_args: &[String], _out: &mut dyn Write) -> i32 {
+use bumpalo::Bump;
+use chrono::NaiveDate;
+use okane_core::report::{self, query, ReportContext};
+
+use crate::proc;
+use crate::sx::{self, enc};
+
+fn parse_date(s: &str) -> Option<NaiveDate> {
+    if s == "-" {
+        None
+    } else {
+        NaiveDate::parse_from_str(s, "%Y-%m-%d").ok()
+    }
+}
+
+pub fn run(_args: &[String], out: &mut dyn Write) -> i32 {
+    let stdin = std::io::stdin();
+    for line in stdin.lock().lines() {
+        let line = line.unwrap();
+        let ws: Vec<&str> = line.split(' ').filter(|w| !w.is_empty()).collect();
+        if ws.len() != 3 {
+            writeln!(out, "bad-case").unwrap();
+            continue;
+        }
+        let (files, root) = proc::decode_files(&ws[1..2]);
+        let ranges: Vec<(String, String)> = ws[2]
+            .split(';')
+            .filter_map(|r| r.split_once("..").map(|(a, b)| (a.to_string(), b.to_string())))
+            .collect();
+        let loaded = match proc::load_entries(&files, &root) {
+            Ok(l) => l,
+            Err(k) => {
+                writeln!(out, "{} tree=() result=(loaderr {}) ranges=() reg=()", ws[0], k).unwrap();
+                continue;
+            }
+        };
+        let tree: Vec<&str> = loaded.entries.iter().map(|e| e.3.as_str()).collect();
+        let p = proc::run_process(&files, &root, Some(&loaded), None);
+        let files2 = files.clone();
+        let root2 = root.clone();
+        let extra = sx::catch(move || {
+            let arena = Bump::new();
+            let mut ctx = ReportContext::new(&arena);
+            let res = report::process(&mut ctx, proc::fake_loader(&files2, &root2), &report::ProcessOptions::default());
+            let mut ledger = match res {
+                Ok(l) => l,
+                Err(_) => return ("()".to_string(), "()".to_string()),
+            };
+            let mut rs = Vec::new();
+            for (s, e) in &ranges {
+                let q = query::BalanceQuery {
+                    conversion: None,
+                    date_range: query::DateRange { start: parse_date(s), end: parse_date(e) },
+                };
+                let b = match ledger.balance(&ctx, &q) {
+                    Ok(b) => proc::balance_sx(b.into_owned()),
+                    Err(e) => format!("(queryerr {})", enc(&e.to_string())),
+                };
+                rs.push(format!("({} {} {})", s, e, b));
+            }
+            // register: all postings with the running total, as RegisterCmd computes it
+            let postings = ledger.postings(&ctx, &query::PostingQuery { account: None });
+            let mut total = report::Amount::default();
+            let mut reg = Vec::new();
+            for posting in postings {
+                total += posting.amount.clone();
+                reg.push(format!("({} {} {})", enc(posting.account.as_str()), proc::amount_sx(&posting.amount), proc::amount_sx(&total)));
+            }
+            (format!("({})", rs.join(" ")), format!("({})", reg.join(" ")))
+        });
+        let (rs, reg) = extra.unwrap_or_else(|m| (format!("(panic {})", enc(&m)), "()".to_string()));
+        writeln!(out, "{} tree=({}) result={} ranges={} reg={}", ws[0], tree.join(" "), p.result, rs, reg).unwrap();
+    }
     0
 }
